@@ -81,7 +81,7 @@ func toValRV(rv reflect.Value) map[string]any {
 		return map[string]any{"t": "nil"}
 	}
 	t := rv.Type()
-	named := t.PkgPath() != "" && t.Kind() != reflect.Struct
+	named := t.PkgPath() != "" && t.Kind() != reflect.Struct && !(t.Kind() == reflect.Map && t.Key().Kind() == reflect.String)
 	if named {
 		return map[string]any{"t": "opaque", "tn": t.String(), "p": sprintRV(rv)}
 	}
@@ -114,6 +114,8 @@ func toValRV(rv reflect.Value) map[string]any {
 		mk := "other"
 		if t.Key().Kind() != reflect.String {
 			mk = "nonstr"
+		} else if t.PkgPath() != "" {
+			mk = "other" // a named string-keyed map type (gin.H …): the map[string]any type assertion fails, reflect is used
 		} else if t.Elem().Kind() == reflect.Interface {
 			mk = "any"
 		} else if t.Elem().Kind() == reflect.String {
@@ -303,6 +305,14 @@ func fromVal(m map[string]any) any {
 			}
 			return out
 		case "other":
+			if m["ty"] == "main.c04H" {
+				out := c04H{}
+				for _, it := range items {
+					p := it.([]any)
+					out[p[0].(string)] = fromVal(p[1].(map[string]any))
+				}
+				return out
+			}
 			out := map[string]int{}
 			for _, it := range items {
 				p := it.([]any)
